@@ -189,7 +189,10 @@ func (s *Sieve[K, V]) evict() {
 		hand = s.queue.Back()
 	}
 
-	entry := s.store[hand.Value.(K)]
+	// When K is an interface type a nil key is queued as a nil interface value, which the single-result assertion to K
+	// refuses with a panic; the two-result form yields the zero value of K for it, and that is the key.
+	key, _ := hand.Value.(K)
+	entry := s.store[key]
 
 	for entry.visited.Load() {
 		entry.visited.Store(false)
@@ -198,7 +201,8 @@ func (s *Sieve[K, V]) evict() {
 			hand = s.queue.Back()
 		}
 
-		entry = s.store[hand.Value.(K)]
+		key, _ = hand.Value.(K)
+		entry = s.store[key]
 	}
 
 	s.hand = hand.Prev()
